@@ -17,8 +17,6 @@
 package parser
 
 import (
-	"strconv"
-
 	"github.com/theory/sqljson/path/ast"
 )
 %}
@@ -197,7 +195,7 @@ array_accessor:
 	;
 
 any_level:
-	INT_P							{ $$, _ = strconv.Atoi($1) }
+	INT_P							{ $$ = anyLevel(pathlex, $1) }
 	| LAST_P						{ $$ = -1 }
 	;
 
